@@ -325,7 +325,7 @@ def declare_dicts(spec):
         spec.ghost_decls[name] = TList(E)
         spec.define(name, glist(spec, name))
     for sn in ('Proc', 'Comp', 'WFT', 'World'):
-        spec.ghost_decls.setdefault('alloc_' + sn, lambda X: None)
+        spec.ghost_decls.setdefault('alloc_' + sn, spec.alloc_havoc(sn))
     spec.define('pk', lambda X, t, a, k, r: ZV(PK.make([t, a, k, r])))
     spec.define('ck', lambda X, t, a, k, r: ZV(CK.make([t, a, k, r])))
     spec.define('pk_r', lambda X, x: ZV(PK.dt.pk_r(deref(x).t)))
